@@ -49,6 +49,13 @@ class ParmapPool08(c01.ParmapPoolH):
             n = 2 * conc + 5
             out.append(dict(mode='pool', conc=conc, n=n, rx=False, rex=False, bound=1 if quick else 2,
                             cap=60000 if quick else 500000))
+        # a second round on the same Stream right after a round that ended early: calls left over from the abandoned
+        # round count towards `concurrency` too
+        for conc in (1, 2):
+            out.append(dict(mode='pool', conc=conc, n=2 * conc + 3, rx=False, rex=False, rounds=2, stop_after=1,
+                            bound=1 if quick else 2, cap=60000 if quick else 500000))
+            out.append(dict(mode='pool', conc=conc, n=2 * conc + 3, rx=False, rex=False, rounds=2, fail=0,
+                            bound=1 if quick else 2, cap=60000 if quick else 500000))
         return out
 
 
